@@ -243,6 +243,28 @@ HANDPICKED = [
 ]
 
 
+SOUP = ["Args:", "Returns:", "Parameters\n----------", "Returns\n-------", "Returns", "-------", "\n", "\n", "\n", "\n\n", " ", "  ", "    ", "\t", ":", ":", "(", ")", "int", "a", "b", "x y", "*", "**",
+        "kwargs", "Defaults to ", "5", ".", "{", "}", "'", " or ", "Raises:", "Kwargs:", ":param", ", optional", "Optional", "None", "\r", "\x0c", " : ", "-", "----------", "Parameters", "foo (int): bar",
+        "foo : int", "Note:", "\n  ", "\n    "]
+
+
+def gen_soup(r):
+    d = "".join(r.choice(SOUP) for _ in range(r.randint(1, 14)))
+    return {"doc": d, "style": "google" if ("Args:" in d or "Returns:" in d) else "numpydoc", "stream": "soup"}
+
+
+# the witnesses of the `∃`-theorems of Properties/C14GN.lean, with what the theorem says about the result (checked on the REAL parser)
+WITNESSES = [
+    ("empty_name_google", "Args:\n  : x", True, lambda v: "" in [n for n, _ in v["params"]]),
+    ("empty_name_numpydoc", "Parameters\n----------\n : int\n    x", True, lambda v: "" in [n for n, _ in v["params"]]),
+    ("empty_typ_google", "Args:\n  foo (): x", True, lambda v: any(a["typ"] == "" for _, a in v["params"])),
+    ("empty_typ_numpydoc", "Parameters\n----------\nb : \n    x", True, lambda v: any(a["typ"] == "" for _, a in v["params"])),
+    ("optional_empty_google", "Args:\n  a (int): x. Defaults to 5\n  *args (): y", True, lambda v: any(a["typ"] == "Optional[]" for _, a in v["params"])),
+    ("colonless_entry_truncates", "Args:\n  a: x\n  nocolon\n  c: z", True, lambda v: [n for n, _ in v["params"]] == ["a"]),
+    ("star_names_merge", "Args:\n  *args: x\n  b: w\n  args: y\n  **args: z", True, lambda v: [n for n, _ in v["params"]] == ["args", "b"] and dict(v["params"])["args"]["doc"] == "z"),
+]
+
+
 def gen_malformed(r, base):
     g = r.choice(base)
     d = g["doc"]
@@ -265,6 +287,19 @@ def canon_scanned(sc, style):
     if extra:
         out["extra_keys"] = extra
     return json.loads(json.dumps(out))
+
+
+def real_keys(stripped):
+    """the keys actually present in every entry of a real result (`strip_ir` form)"""
+    rt = stripped.get("returns")
+    return {"params": [[k, sorted(v)] for k, v in stripped["params"]], "returns": None if rt is None else [[k, sorted(v)] for k, v in rt]}
+
+
+def model_keys(view):
+    """the fields the model result carries: entries are typ / doc / default and nothing else; one return entry called return_type"""
+    def present(a):
+        return sorted(k for k, v in a.items() if v is not None)
+    return {"params": [[k, present(a)] for k, a in view["params"]], "returns": None if view["returns"] is None else [["return_type", present(view["returns"])]]}
 
 
 def impl_emit(case):
@@ -337,8 +372,9 @@ def run_gn(chk: core.Check, rng, have_driver: bool) -> None:
         ecases.append((ir, rng.choice(GN), rng.random() < 0.8, rng.random() < 0.5, rng.random() < 0.7))
     emitted = [{"doc": ds, "style": c[1], "stream": "emitted"} for c, ds in zip(ecases, core.pmap(impl_emit, ecases)) if isinstance(ds, str)]
     base = structured + emitted
-    malformed = [gen_malformed(rng, base) for _ in range(n)] + [{"doc": t, "style": "google" if ("Args:" in t or "Returns:" in t) else "numpydoc", "stream": "malformed"} for t in HANDPICKED]
-    gens = structured + emitted + malformed
+    malformed = [gen_malformed(rng, base) for _ in range(n)] + [{"doc": t, "style": "google" if ("Args:" in t or "Returns:" in t) else "numpydoc", "stream": "malformed"} for t in HANDPICKED + [w[1] for w in WITNESSES]]
+    soup = [gen_soup(rng) for _ in range(n // 2)]
+    gens = structured + emitted + malformed + soup
     cases = []
     for g in gens:
         edd = rng.random() < 0.6
@@ -355,7 +391,7 @@ def run_gn(chk: core.Check, rng, have_driver: bool) -> None:
             if isinstance(r, dict) and r.get("timeout"):
                 chk.failure({"parser": "docstring", "style": g["style"], "clause": "timeout"}, "docstring parser does not return", {"fn": "docstring", "doc": text})
             continue
-        style = g["style"] if g["stream"] != "malformed" and forced is None else "arbitrary-text"
+        style = g["style"] if g["stream"] in ("structured", "emitted") and forced is None else "arbitrary-text"
         accepted["docstring-gn-" + g["stream"]] = accepted.get("docstring-gn-" + g["stream"], 0) + 1
         for clause, detail in c14.wf_problems(c14.unstrip(r["ir"])):
             sig = {"parser": "docstring", "style": style, "clause": clause, "detail": detail.split(":")[-1] if clause == "typ-unparsable" else None}
@@ -363,6 +399,11 @@ def run_gn(chk: core.Check, rng, have_driver: bool) -> None:
                 sig["has_empty_typ"] = g.get("has_empty_typ") if clause in ("typ-empty", "typ-unparsable") else None
             chk.failure(sig, "docstring parser (%s, %s stream): %s %s" % (style, g["stream"], clause, detail), {"fn": "docstring", "doc": text})
     chk.coverage.setdefault("accepted_inputs_by_parser", {}).update(accepted)
+    # ---- the theorems' witnesses on the real parser --------------------------------------------------------------------
+    wres = core.guarded_map(impl_gn, [(t, edd, None) for _, t, edd, _ in WITNESSES], 10.0)
+    bad = [nm for (nm, _, _, pred), r in zip(WITNESSES, wres) if not isinstance(r, dict) or "view" not in r or not pred(r["view"])]
+    chk.oblige("witness replay: the %d concrete texts of the ∃-theorems of Properties/C14GN.lean behave on the real parser as the theorems say" % len(WITNESSES),
+               "correspondence", not bad, "differs on: %s" % bad)
     if not have_driver:
         return
     # ---- correspondence with the model -------------------------------------------------------------------------------
@@ -427,12 +468,12 @@ def run_gn(chk: core.Check, rng, have_driver: bool) -> None:
                 else:
                     n_dis["parse"] += 1
                     chk.disagreement("C14GN correspondence: docstring parse (Google/NumPy)", case, {"raises": r["raises"]}, m)
-            elif m.get("ir") == r.get("view"):
+            elif m.get("ir") == r.get("view") and model_keys(m["ir"]) == real_keys(r["ir"]):
                 stat["parse"]["agree"] += 1
                 bs["agree"] += 1
             else:
                 n_dis["parse"] += 1
-                chk.disagreement("C14GN correspondence: docstring parse (Google/NumPy)", case, r.get("view"), m)
+                chk.disagreement("C14GN correspondence: docstring parse (Google/NumPy)", case, {"view": r.get("view"), "keys": real_keys(r["ir"]) if "ir" in r else None}, m)
     n_parse = stat["parse"]["agree"] + stat["parse"]["raises_agree"] + sum(stat["parse"]["abstain"].values()) + n_dis["parse"]
     n_scan = stat["scan"]["agree"] + stat["scan"]["raises_agree"] + n_dis["scan"]
     stat["parse"]["compared"] = n_parse
@@ -444,7 +485,7 @@ def run_gn(chk: core.Check, rng, have_driver: bool) -> None:
                "(hand-rendered, emitter-rendered, perturbed; %d with the style forced)" % (n_scan, stat["forced_style"]),
                "correspondence", n_dis["scan"] == 0 and n_scan > 0, "%d disagreements" % n_dis["scan"])
     n_abs = sum(stat["parse"]["abstain"].values())
-    chk.oblige("correspondence: DocGN.parseDocstring / parseGN = cdd.docstring.parse.docstring (view, or the same exception) on %d texts; the model abstains on %d (%s)"
+    chk.oblige("correspondence: DocGN.parseDocstring / parseGN = cdd.docstring.parse.docstring (doc, names in order, typ/doc/default of every entry, the set of keys of every entry; or the same exception) on %d texts; the model abstains on %d (%s)"
                % (n_parse, n_abs, ", ".join("%s: %d" % kv for kv in sorted(stat["parse"]["abstain"].items(), key=lambda kv: -kv[1]))),
                "correspondence", n_dis["parse"] == 0 and n_parse > 0 and n_abs * 2 < n_parse, "%d disagreements, %d abstentions of %d" % (n_dis["parse"], n_abs, n_parse))
     chk.sample({"docstring-gn": structured[0]["doc"], "style": structured[0]["style"]})
